@@ -149,6 +149,13 @@ func runC09(c *core.Ctx) {
 		switch entry {
 		case "rundir-relative":
 			prefix, runDirArg, cwd = gen.RunDirName+"/", gen.RunDirName, root
+			if i%5 == 2 {
+				// the run directory is named through a symbolic link to its parent directory: artifacts
+				// are called by the path the caller passed (and the layout's rules use), not by where it leads
+				entry = "rundir-relative-through-a-symlinked-parent"
+				os.Symlink(root, filepath.Join(root, "alias"))
+				prefix, runDirArg = "alias/"+gen.RunDirName+"/", "alias/"+gen.RunDirName
+			}
 		case "rundir-absolute":
 			prefix, runDirArg, cwd = finalDir+"/", finalDir, root
 		}
@@ -468,7 +475,7 @@ func init() {
 	core.Register(&core.Property{
 		ID:    "C09",
 		Level: "exploration",
-		Rule: "seeded cases: final-product directory = the last step's products with files {untouched, added, added under a name of the kind tools like to ignore (*.pyc, *~, .git, .DS_Store...), added under a non-ASCII name that a DISALLOW *.evil rule must catch, removed, modified, modified in line endings only, a 150 KB product whose CR LF pairs straddle 4 KiB ... 128 KiB block boundaries where the step recorded LF (the same file under normalisation) or LF LF (another file)}, in a quarter of the cases plus a symlink to a directory that sorts first; 0-3 inspections (every 19th case: a first inspection without any rule, then at least one more) whose command is `vhelper inspect` with an action from {no-op, create / modify / delete a file, replace a file by other content of the same size with its modification time restored, exit 1/2/127/255, kill 9/15} or a missing / non-executable program; inspection rule lists drawn from a 20-24-rule vocabulary (incl. REQUIRE with names that would match as patterns) (MATCH against the last step's products/materials with and without IN <run dir>, against an earlier inspection, ALLOW/DISALLOW/REQUIRE/CREATE/MODIFY/DELETE with run-dir-prefixed names) + terminal DISALLOW *; step link recorded with sha256 / sha256+sha512 / sha512 only; step-phase defect in 1/7 of the cases; entry points plain, run dir relative, run dir absolute; both wrappers; line normalisation on in 1/3. Oracle: reference rule interpreter over the directory snapshots the command itself logged (before/after, raw or normalised digests) and the step links; execution order / exactly once / not after a failing command / not before the step checks from the log and the inspection_exec events. " +
+		Rule: "seeded cases: final-product directory = the last step's products with files {untouched, added, added under a name of the kind tools like to ignore (*.pyc, *~, .git, .DS_Store...), added under a non-ASCII name that a DISALLOW *.evil rule must catch, removed, modified, modified in line endings only, a 150 KB product whose CR LF pairs straddle 4 KiB ... 128 KiB block boundaries where the step recorded LF (the same file under normalisation) or LF LF (another file)}, in a quarter of the cases plus a symlink to a directory that sorts first; 0-3 inspections (every 19th case: a first inspection without any rule, then at least one more) whose command is `vhelper inspect` with an action from {no-op, create / modify / delete a file, replace a file by other content of the same size with its modification time restored, exit 1/2/127/255, kill 9/15} or a missing / non-executable program; inspection rule lists drawn from a 20-24-rule vocabulary (incl. REQUIRE with names that would match as patterns) (MATCH against the last step's products/materials with and without IN <run dir>, against an earlier inspection, ALLOW/DISALLOW/REQUIRE/CREATE/MODIFY/DELETE with run-dir-prefixed names) + terminal DISALLOW *; step link recorded with sha256 / sha256+sha512 / sha512 only; step-phase defect in 1/7 of the cases; entry points plain, run dir relative (a fifth of these named through a symbolic link to its parent), run dir absolute; both wrappers; line normalisation on in 1/3. Oracle: reference rule interpreter over the directory snapshots the command itself logged (before/after, raw or normalised digests) and the step links; execution order / exactly once / not after a failing command / not before the step checks from the log and the inspection_exec events. " +
 			"non-trivial = at least one inspection; distinct = hash of the whole case",
 		Assumptions: []string{"an empty run list is not generated (the statement does not say what should happen)", "the snapshot taken inside the command equals what the library records directly before/after it"},
 		Workers:     func(string) int { return 16 },
